@@ -2548,7 +2548,7 @@ Reverse shall re-order the receiver's current slices in a sequence that is the p
 of the original.
 */
 func (r Stack) Reverse() Stack {
-	if !r.IsEmpty() {
+	if r.IsInit() {
 		if !r.getState(ronly) {
 			r.stack.reverse()
 		}
